@@ -378,6 +378,9 @@ func (d *DBFT[H]) onPrepareRequest(msg ConsensusPayload[H]) {
 }
 
 func (d *DBFT[H]) processMissingTx() {
+	// The list is rebuilt, this can be the second pass for the same proposal
+	// (see sendRecoveryRequest) and a hash must not be there twice.
+	d.MissingTransactions = d.MissingTransactions[:0]
 	for _, h := range d.TransactionHashes {
 		if _, ok := d.Transactions[h]; ok {
 			continue
